@@ -425,7 +425,59 @@ func evalPlanner(c PCase) (problems []string, n int) {
 	}
 	plan.Version = "1"
 	CheckPlanFlags(plan, scan, bad)
+	// a reverse undoes the whole statement: an ALTER TABLE of k clauses is reversed by k clauses.
+	for _, ch := range plan.Changes {
+		k := alterClauses(ch.Cmd)
+		if k == 0 {
+			continue
+		}
+		rs, _ := ch.ReverseStmts()
+		if len(rs) == 0 {
+			continue
+		}
+		rk := 0
+		for _, r := range rs {
+			if n := alterClauses(r); n > 0 {
+				rk += n
+			} else {
+				rk++ // a separate statement (DROP INDEX, DROP SEQUENCE, ...) undoes one clause
+			}
+		}
+		if rk < k {
+			bad("statement with %d clauses is reversed by %d clause(s) only: %s  <=  %q", k, rk, ch.Cmd, rs)
+		}
+	}
 	return problems, len(plan.Changes)
+}
+
+var reAlter = regexp.MustCompile("(?is)^\\s*ALTER\\s+TABLE\\s+(`[^`]+`|\"[^\"]+\"|\\S+)(\\.(`[^`]+`|\"[^\"]+\"))?\\s+(.*)$")
+
+// alterClauses counts the top-level comma-separated clauses of an ALTER TABLE statement (0: not one).
+func alterClauses(stmt string) int {
+	m := reAlter.FindStringSubmatch(stmt)
+	if m == nil {
+		return 0
+	}
+	body, depth, n := m[4], 0, 1
+	var quote byte
+	for i := 0; i < len(body); i++ {
+		c := body[i]
+		switch {
+		case quote != 0:
+			if c == quote {
+				quote = 0
+			}
+		case c == '\'' || c == '"' || c == '`':
+			quote = c
+		case c == '(':
+			depth++
+		case c == ')':
+			depth--
+		case c == ',' && depth == 0:
+			n++
+		}
+	}
+	return n
 }
 
 func texts(st []*migrate.Stmt, err error) ([]string, error) {
@@ -475,7 +527,7 @@ func Run(r *report.Run) {
 		}
 	}
 	r.Set("mysql_postgres_plans_checked_for_flag_and_down_files", pn)
-	r.Rule = "(planner level) MySQL and PostgreSQL plans of the differ universe (create-all, drop-all, every single edit, a fifth of the compatible pairs; thorough: all pairs) x 2 indents: parts (a) and (b) below; (engine level) pairs (A,B) of the SQLite universe as in C01 x indent {none, two spaces} x desired state {evaluated from HCL, inspected from a live database built with B's DDL}: plan from the real differ/planner; (a) Reversible <=> every change has a reverse statement, a plan that rebuilds a table is never reversible; (b) for the 5 third-party formatters the down part (our own extraction + the dialect scanner) equals the reverse statements in reverse change order; (c) for reversible plans: up then down on the real engine restores the catalogue read by our own pragma dump, and atlas reports no difference from the starting schema in both directions; non-trivial = pair with a non-empty plan; distinct = (A,B,indent,source)"
+	r.Rule = "(planner level) MySQL and PostgreSQL plans of the differ universe (create-all, drop-all, every single edit, a fifth of the compatible pairs; thorough: all pairs) x 2 indents: parts (a) and (b) below, and an ALTER TABLE of k clauses must be reversed by at least k clauses; (engine level) pairs (A,B) of the SQLite universe as in C01 x indent {none, two spaces} x desired state {evaluated from HCL, inspected from a live database built with B's DDL}: plan from the real differ/planner; (a) Reversible <=> every change has a reverse statement, a plan that rebuilds a table is never reversible; (b) for the 5 third-party formatters the down part (our own extraction + the dialect scanner) equals the reverse statements in reverse change order; (c) for reversible plans: up then down on the real engine restores the catalogue read by our own pragma dump, and atlas reports no difference from the starting schema in both directions; non-trivial = pair with a non-empty plan; distinct = (A,B,indent,source)"
 	r.Assumptions = []string{"MySQL/PostgreSQL plans are covered for (a) and (b) by the planner-level checks; (c) needs an engine and is SQLite only"}
 	cs := pairs(r.Tier)
 	var mu sync.Mutex
